@@ -227,7 +227,9 @@ def identity_deviation(R1: np.ndarray, R2: np.ndarray) -> float:
     """
     _rotations_guard_clauses(R1, R2)
     R1, R2 = np.array(R1, dtype=float), np.array(R2, dtype=float)
-    return np.linalg.norm(np.eye(3)-R1@R2.T, 'fro')
+    if R1.ndim < 3:
+        return np.linalg.norm(np.eye(3)-R1@R2.T, 'fro')
+    return np.array([np.linalg.norm(np.eye(3)-r1@r2.T, 'fro') for r1, r2 in zip(R1, R2)])
 
 def angular_distance(R1: np.ndarray, R2: np.ndarray) -> float:
     """
@@ -267,8 +269,9 @@ def angular_distance(R1: np.ndarray, R2: np.ndarray) -> float:
     """
     _rotations_guard_clauses(R1, R2)
     R1, R2 = np.array(R1, dtype=float), np.array(R2, dtype=float)
-    R1R2T = DCM(R1@R2.T)
-    return np.linalg.norm(R1R2T.log)
+    if R1.ndim < 3:
+        return np.linalg.norm(DCM(R1@R2.T).log)
+    return np.array([np.linalg.norm(DCM(r1@r2.T).log) for r1, r2 in zip(R1, R2)])
 
 def qdist(q1: np.ndarray, q2: np.ndarray) -> float:
     """
